@@ -26,7 +26,7 @@ def one(bid):
         if rc != 0:
             return bid, {"error": "patch does not apply: " + out[-200:]}
         for c in checks:
-            rc, out = sh(f"./check {c} --tier quick", cwd=ROOT, env=dict(ENV, QIB_REPO=str(wt)), timeout=3600)
+            rc, out = sh(f"./check {c} --tier quick", cwd=ROOT, env=dict(ENV, QIB_REPO=str(wt), **({} if c == checks[0] else {"VERIF_NO_DEEPEN": "1"})), timeout=5400)
             v = [l for l in out.splitlines() if l.startswith("VIOLATION")]
             key = None
             if v:
@@ -48,7 +48,7 @@ def main():
     ids = sys.argv[1:] or sorted(p.name for p in (ROOT / "benign").iterdir() if (p / "patch.diff").exists())
     f = ROOT / "benign" / "RESULTS.json"
     table = json.loads(f.read_text()) if f.exists() else {}
-    with ThreadPoolExecutor(4) as ex:
+    with ThreadPoolExecutor(int(os.environ.get("BENIGN_WORKERS", "4"))) as ex:
         for bid, res in ex.map(one, ids):
             table[bid] = res
             print(bid, {c: r["rc"] for c, r in res.items()} if "error" not in res else res, flush=True)
